@@ -92,7 +92,7 @@ func Scope() map[string]cty.Value {
 		"e":   cty.ListValEmpty(cty.String),
 		"nul": cty.NullVal(cty.DynamicPseudoType),
 		"s":   cty.StringVal("a"),
-		"p":   cty.StringVal("global-p"),
+		"p":   cty.ListVal([]cty.Value{cty.StringVal("g1"), cty.StringVal("g2")}),
 		"ll":  cty.ListVal([]cty.Value{cty.ListVal([]cty.Value{n(1)}), cty.ListVal([]cty.Value{n(2), n(3)})}),
 	}
 }
@@ -127,7 +127,11 @@ func specReads(sn *dec.SpecNode, typ string) bool {
 	return false
 }
 
-func Handle(c *core.Check, st core.State) {
+// Handle applies the whole C18 relation; HandleVars only the variable-sufficiency part (used by C07).
+func Handle(c *core.Check, st core.State)     { handle(c, st, false) }
+func HandleVars(c *core.Check, st core.State) { handle(c, st, true) }
+
+func handle(c *core.Check, st core.State, varsOnly bool) {
 	var items []DItem
 	var sn *dec.SpecNode
 	var outItems []dec.Item
@@ -170,7 +174,7 @@ func Handle(c *core.Check, st core.State) {
 		c.Violation("panic/expand", fmt.Sprintf("%s: Decode(Expand(..)) panicked: %v", desc, rec), vec)
 		return
 	}
-	if !outOom {
+	if !outOom && !varsOnly {
 		wf, wd := hclsyntax.ParseConfig([]byte(outSrc), "out.hcl", hcl.InitialPos)
 		if wd.HasErrors() {
 			c.Broken("written-out body does not parse: %q: %s", outSrc, wd.Error())
@@ -218,6 +222,9 @@ func Handle(c *core.Check, st core.State) {
 	// unknown for_each: the result keeps the implied type and the affected part is unknown
 	ity := hcldec.ImpliedType(spec)
 	for _, x := range forEachVars(items) {
+		if varsOnly {
+			break
+		}
 		affected := false
 		for _, it := range items {
 			if it.K == "dyn" && it.Each.K == "var" && it.Each.S == x && specReads(sn, it.Name) {
@@ -281,7 +288,7 @@ func Handle(c *core.Check, st core.State) {
 			}
 		}
 		for _, r := range roots {
-			for _, itn := range []string{"it", "inner", "o", "q"} {
+			for _, itn := range []string{"it", "inner", "o", "x", "y", "z"} {
 				if r == itn {
 					c.Violation("variables/iterator-reported", fmt.Sprintf("%s: iterator name %q is reported as a variable", desc, r), vec)
 					return
@@ -298,6 +305,22 @@ func Handle(c *core.Check, st core.State) {
 		}
 		if !pv.RawEquals(v1) || !e1.SameDiags(pdg, d1) {
 			c.Violation("variables/insufficient", fmt.Sprintf("%s: reported roots %v; full scope gives %s %v, pruned scope gives %s %v", desc, roots, e1.Describe(v1), e1.NormDiags(d1), e1.Describe(pv), e1.NormDiags(pdg)), vec)
+			return
+		}
+	}
+	if !hasDyn {
+		// a body without dynamic blocks: hcldec.Variables and the dynblock walker must agree and be sufficient
+		var a, b []string
+		for _, t := range hcldec.Variables(df.Body, spec) {
+			a = append(a, t.RootName())
+		}
+		for _, t := range dynblock.VariablesHCLDec(df.Body, spec) {
+			b = append(b, t.RootName())
+		}
+		sort.Strings(a)
+		sort.Strings(b)
+		if fmt.Sprint(a) != fmt.Sprint(b) {
+			c.Violation("variables/static-walkers-differ", fmt.Sprintf("%s: hcldec.Variables reports %v, dynblock.VariablesHCLDec reports %v", desc, a, b), vec)
 			return
 		}
 	}
